@@ -104,7 +104,9 @@ def resolveFn (env : Env) (name : List Char) : Option HostFn :=
   | none =>
     if Builtins.isRegistered (String.ofList name) then
       match Builtins.model? (String.ofList name) with
-      | some b => some (fun a => match b a with | .ok v => .ok v | .error e => .error (.xl e))
+      | some b => some (fun a => match b a with
+            | .ok v => if isNoOpinion v then .error .unmodelled else .ok v
+            | .error e => .error (.xl e))
       | none => some (fun _ => .error .unmodelled)
     else none
 
